@@ -585,6 +585,21 @@ fn c11_register_preserves_registry_invariant() {
 }
 
 #[kani::proof]
+#[kani::stub(InterchainTokenService::get_execute_params, get_execute_params_stub)]
+fn c11_remote_deploy_preserves_registry_invariant() {
+    let env = Env::default();
+    let _h = shim::fresh_host();
+    unsafe { GEP_KIND = 1 };
+    let witness: BytesN<32> = BytesN::symbolic();
+    kani::assume(iits(true, &env, &witness));
+    let r = S::execute_message(&env, String::symbolic(), String::symbolic(), String::symbolic(), Bytes::symbolic());
+    if r.is_ok() {
+        assert!(iits(false, &env, &witness), "OBL C11.registry_invariant_preserved: every registry entry stays either a token at its derived, occupied address or a canonical token under its canonical id");
+        kani::cover!(true, "COVER c11 remote deploy inv ok");
+    }
+}
+
+#[kani::proof]
 fn c11_registry_views() {
     let env = Env::default();
     let _h = shim::fresh_host();
